@@ -271,9 +271,12 @@ def judge_ddx(case, acc):
             cond = float(np.abs(np.asarray(dp).ravel() - d).max()) / 1e-12      # per unit relative perturbation
         ref = np.empty(nd)
         tol = np.empty(nd)
+        # general lagrange2/3 tables evaluate d/dx in expanded absolute coordinates (cancellation ~ eps*(|x|/h)^2
+        # on grids far from the origin): round-off of the returned derivative itself, see interp_ref
+        xr = R.deriv_expanded_roundoff(method, grids, x, vmax)
         try:
             for ax in range(nd):
-                base = 5.0 * delta / dist[ax] + 64 * R.EPS * cond
+                base = 5.0 * delta / dist[ax] + 64 * R.EPS * cond + xr[ax]
                 if use_cs:
                     xc = x.astype(complex)
                     xc[ax] += 1j * CS
@@ -695,7 +698,8 @@ def judge_mmsc(case, acc):
             h = dist[:, ax].min() / 4.0
             D1 = _fd7(run, X, ax, h)
             D2 = _fd7(run, X, ax, h / 2.0)
-            tol = 5.0 * delta / dist[:, ax] + (11.0 / 6.0) * 2 * delta / (h / 2.0)
+            tol = (5.0 * delta / dist[:, ax] + (11.0 / 6.0) * 2 * delta / (h / 2.0)
+                   + np.array([R.deriv_expanded_roundoff(method, grids, x, vmax)[ax] for x in X]))
             incons = np.abs(D1 - D2) > 2 * tol
             acc.count('obs:mmsc:d_dx')
             if incons.any():
